@@ -18,7 +18,8 @@ EXPLANATION = ("D1 Rsi tables (exterior by tilt; partitions by conditioning x ti
                "D4 dispatch by boundary kind and tilt, ventilation precedence; D5 burial depth z = max(-space.z, 0)")
 DECIDED = ["D1 surface-resistance tables", "D2 leaf formulas", "D3 missing construction or material => None", "D4 dispatch and ventilation precedence", "D5 burial depth",
            "D5 the building-wide ventilation rate used for partitions is 3.6 l/s over the net volume of the habitable spaces inside the envelope",
-           "D6 no rounded value enters further arithmetic (rounding once, at the end); the other side of an element of Space::walls is chosen by who declares it"]
+           "D6 no rounded value enters further arithmetic (rounding once, at the end); the other side of an element of Space::walls is chosen by who declares it",
+           "D7 H_ue of an unconditioned space adds net opaque area x U (openings not counted twice)"]
 UNDECIDED = ["two-decimal agreement of the assembled value on real models (aggregation over surfaces, characteristic dimension from geometry)",
              "monotonicity in layers (a sign argument over runtime values)"]
 ASSUMPTIONS = ["reference formulas transcribed from EN ISO 6946 / 13370 / 13789 as named in the statement"]
